@@ -746,3 +746,17 @@ pub mod fake_std {
         }
     }
 }
+
+/// `BuildHasher` with fixed keys standing in for `ahash::RandomState` (see `utils::hash`).
+#[derive(Clone, Copy, Debug, Default)]
+pub struct FixedAHashState;
+
+impl std::hash::BuildHasher for FixedAHashState {
+    type Hasher = ahash::AHasher;
+    fn build_hasher(&self) -> ahash::AHasher {
+        static STATE: std::sync::OnceLock<ahash::RandomState> = std::sync::OnceLock::new();
+        STATE
+            .get_or_init(|| ahash::RandomState::with_seeds(0x9e37_79b9, 0x7f4a_7c15, 0xf39c_c060, 0x5ced_c834))
+            .build_hasher()
+    }
+}
